@@ -114,12 +114,12 @@ func cfgS4(prop string, seed uint64, tier string) *RunCfg {
 	// fault plan
 	nf := 1 + r.Intn(3)
 	for k := 0; k < nf; k++ {
-		kinds := []string{"cut", "cut", "cut", "torn", "restart", "refuse", "stall"}
+		kinds := []string{"cut", "cut", "eof", "eof", "torn", "restart", "refuse", "stall"}
 		if cs.Inactivity > 0 {
 			kinds = append(kinds, "blackhole", "blackhole")
 		}
 		if c.Knobs["leader_only"] == 1 {
-			kinds = []string{"flip", "flip", "cut", "torn"}
+			kinds = []string{"flip", "flip", "cut", "eof", "torn"}
 		}
 		f := FaultSpec{Kind: kinds[r.Intn(len(kinds))], AfterTxn: r.Intn(n), Frame: r.Intn(14), Bytes: r.Intn(40), N: 1 + r.Intn(2), Ms: []int{100, 700, 3000}[r.Intn(3)], Dir: r.Intn(2)}
 		if k == 0 && r.Intn(3) == 0 {
@@ -164,11 +164,15 @@ func (s *s4) beforeDeliver(l *simrt.Link, dir int, idx int, frame []byte) int {
 			continue
 		}
 		switch f.Kind {
-		case "cut":
+		case "cut", "eof":
 			f.N--
 			f.Frame = 2 // a repeated cut strikes again two frames later
-			s.fault("cut", fmt.Sprintf("link %s cut before frame %d/%d (%s)", l.Name, dir, idx, frameKind(frame)))
-			l.Cut()
+			s.fault(f.Kind, fmt.Sprintf("link %s cut before frame %d/%d (%s)", l.Name, dir, idx, frameKind(frame)))
+			if f.Kind == "eof" {
+				l.CutEOF() // both sides see an orderly close, the frame is lost
+			} else {
+				l.Cut()
+			}
 			return -1
 		case "torn":
 			f.N = 0
@@ -211,13 +215,16 @@ func (s *s4) arm(i int) {
 			continue
 		}
 		switch f.Kind {
-		case "cut", "torn":
+		case "cut", "torn", "eof":
 			ff := f
 			s.armed = append(s.armed, &ff)
 		case "restart":
 			// server crash + restart over the same database: every connection dies, monitors are lost
 			s.fault("restart", "server restarted")
-			s.srv.Srv.Close()
+			old := s.srv.Srv
+			if !e.Do(func() { old.Close() }) {
+				return
+			}
 			e.Sim.Net.CutAll(epMain)
 			s.restarts++
 			s.srv = e.StartServer(epMain, false, s.srv.DB)
